@@ -227,6 +227,33 @@ var vInvSnaps = [][]vRes3{
 	{{2600, 2600, 2600}, {1000, 1000, 1000}, {1000, 1000, 1000}},
 }
 
+// The first vInvBaseGroups / vInvBaseSnaps entries are the alphabet of the
+// operation-sequence enumeration; the entries behind them are packing
+// instances (one entry of 1..3 replicas, 2..3 equal or unequal nodes) for the
+// packing enumeration: replicas of one entry spread over several nodes,
+// nodes partly used by an earlier reservation.
+const (
+	vInvBaseGroups = 3
+	vInvBaseSnaps  = 3
+)
+
+func init() {
+	for _, cpu := range []int64{600, 700, 1100} {
+		for cnt := 1; cnt <= 3; cnt++ {
+			vInvGroups = append(vInvGroups, vInvGroupSpec{Name: fmt.Sprintf("p%dx%d", cpu, cnt), Entries: []struct {
+				CPU, Mem, Sto int64
+				Count         int
+				Ports         int
+			}{{cpu, 100, 100, cnt, 0}}})
+		}
+	}
+	vInvSnaps = append(vInvSnaps,
+		[]vRes3{{1000, 9000, 9000}, {1000, 9000, 9000}},
+		[]vRes3{{1000, 9000, 9000}, {1000, 9000, 9000}, {1000, 9000, 9000}},
+		[]vRes3{{2000, 9000, 9000}, {1000, 9000, 9000}},
+	)
+}
+
 func vInvGroup(i int) dtypes.GroupSpec {
 	spec := vInvGroups[i]
 	g := dtypes.GroupSpec{Name: spec.Name}
@@ -678,12 +705,12 @@ func vInvOutcomesString(o []vInvOutcome, skipStatus bool) string {
 func vInvAlphabet(nOrders int) []vInvOp {
 	var al []vInvOp
 	for o := 1; o <= nOrders; o++ {
-		for g := range vInvGroups {
+		for g := 0; g < vInvBaseGroups; g++ {
 			al = append(al, vInvOp{Kind: "reserve", Order: o, Group: g, Snap: 0})
 		}
 		al = append(al, vInvOp{Kind: "unreserve", Order: o}, vInvOp{Kind: "deployed", Order: o}, vInvOp{Kind: "pending", Order: o})
 	}
-	for sidx := range vInvSnaps {
+	for sidx := 0; sidx < vInvBaseSnaps; sidx++ {
 		al = append(al, vInvOp{Kind: "refresh", Snap: sidx})
 	}
 	al = append(al, vInvOp{Kind: "status"}, vInvOp{Kind: "lookup", Order: 1, Group: 0})
@@ -695,7 +722,7 @@ func TestVerif_C12(t *testing.T) {
 		"operation sequences {reserve(order, group with 1 or 2 resource entries, with endpoints), unreserve, status, lookup, deployment-status events (deployed / pending), inventory refresh (3 snapshots)} executed on the real inventoryService (real bus, scripted Client.Inventory; loop stepped through its loop-top hook) next to a reference model: granted => an exact backtracking bin-packer places all not-yet-deployed reservations plus the new one on the last reported *available* capacity and the endpoints fit the free ports; status = one entry per outstanding reservation in the right class, equal on consecutive calls, committed amounts for single-entry reservations; every sequence is run with and without interleaved status queries and must give identical outcomes and final status; unreserve removes exactly one. Complete for all sequences up to length 3 over a 2-order alphabet, sampled beyond; plus a porcupine linearizability check of a concurrent reserve/unreserve/status history. distinct = operation sequences")
 	res.Assume("commit levels {1,1,1}, {2,1,1.5}, {10,4,1}; the scripted cluster client reports the snapshots the harness releases; first-fit refusing a packable set is not an alarm (counted)")
 	if vs.Stage() == "" && vs.ReplayFile() == "" {
-		for _, f := range []string{"sequences", "granted", "refused", "granted_multi_entry", "status_checks", "deployment_events", "metamorphic_pairs", "linearizability_histories"} {
+		for _, f := range []string{"sequences", "granted", "refused", "granted_multi_entry", "status_checks", "deployment_events", "metamorphic_pairs", "linearizability_histories", "packing_sequences"} {
 			res.Floor(f, 1)
 		}
 	}
@@ -803,15 +830,42 @@ func TestVerif_C12(t *testing.T) {
 	vs.Parallel(nr, workers, func(i int) {
 		r := vs.NewRand(seed, uint64(i)+0xC1212)
 		n := r.Range(8, 20)
-		ops := []vInvOp{{Kind: "refresh", Snap: r.Intn(len(vInvSnaps))}}
+		ops := []vInvOp{{Kind: "refresh", Snap: r.Intn(vInvBaseSnaps)}}
 		for k := 0; k < n; k++ {
 			o := al3[r.Intn(len(al3))]
 			if o.Kind == "reserve" {
-				o.Snap = r.Intn(len(vInvSnaps))
+				o.Snap = r.Intn(vInvBaseSnaps)
 			}
 			ops = append(ops, o)
 		}
 		judge(levelSets[i%len(levelSets)], r.Range(1, 4), ops, "random")
+	})
+	// (2b) packing enumeration: on each packing snapshot every ordered pair
+	// (thorough: triple) of packing groups is reserved in turn (plus, for
+	// pairs, a third reservation drawn from the seed), all of them pending
+	nPack := len(vInvGroups) - vInvBaseGroups
+	var packs [][]vInvOp
+	pr := vs.NewRand(seed, 0xC12BB)
+	for sn := vInvBaseSnaps; sn < len(vInvSnaps); sn++ {
+		for a := 0; a < nPack; a++ {
+			for b := 0; b < nPack; b++ {
+				base := []vInvOp{{Kind: "refresh", Snap: sn},
+					{Kind: "reserve", Order: 1, Group: vInvBaseGroups + a, Snap: sn},
+					{Kind: "reserve", Order: 2, Group: vInvBaseGroups + b, Snap: sn}}
+				if vs.Thorough() {
+					for c := 0; c < nPack; c++ {
+						packs = append(packs, append(append([]vInvOp(nil), base...), vInvOp{Kind: "reserve", Order: 3, Group: vInvBaseGroups + c, Snap: sn}))
+					}
+				} else {
+					packs = append(packs, append(append([]vInvOp(nil), base...), vInvOp{Kind: "reserve", Order: 3, Group: vInvBaseGroups + pr.Intn(nPack), Snap: sn}))
+				}
+			}
+		}
+	}
+	res.Extra("packing_enumeration", fmt.Sprintf("%d sequences: 3 node snapshots x ordered pairs%s of 9 single-entry groups (cpu 600/700/1100 x 1..3 replicas)", len(packs), map[bool]string{true: " and triples", false: " plus a drawn third"}[vs.Thorough()]))
+	vs.Parallel(len(packs), workers, func(i int) {
+		judge(levelSets[0], 3, packs[i], "packing")
+		res.Count("packing_sequences", 1)
 	})
 	// (3) linearizability of a concurrent history
 	vInvLinearizability(res, vs.Scale(4, 40))
